@@ -4,7 +4,7 @@
    2570109 of the `while count >= cutoff` loop; fixed = false the originally pinned tree).
    Specification: spec/MerkleSpec.v. *)
 From Coq Require Import ZArith Bool List.
-From TF Require Import Merkle MerkleSpec MerkleProofs.
+From TF Require Import Merkle MerkleSpec MerkleGen MerkleProofs.
 Import ListNotations.
 Open Scope Z_scope.
 
@@ -110,6 +110,17 @@ Theorem C10_honest_proofs : forall (D : Type) (H : D -> D -> D) (Deqb : D -> D -
 Proof. exact honest_proofs_lemma. Qed.
 Print Assumptions C10_honest_proofs.
 
+Example C10_honest_proofs_example :
+  let T := spec_tree term Node Dflt wit_leafs in
+  mt_inclusion_proof term CUR_LEAF_FIXED Release T [2; 0; 2] =
+    Ok (MkProof 3 [(2, Atom 2); (0, Atom 0); (2, Atom 2)]
+                  [Atom 3; Atom 1; Node (Node (Atom 4) (Atom 5)) (Node (Atom 6) (Atom 7))]) /\
+  ip_into_authentication_paths term Node term_eqb Release
+    (MkProof 3 [(0, Atom 0); (2, Atom 2)] [Atom 3; Atom 1; Node (Node (Atom 4) (Atom 5)) (Node (Atom 6) (Atom 7))]) =
+    Ok [[Atom 1; Node (Atom 2) (Atom 3); Node (Node (Atom 4) (Atom 5)) (Node (Atom 6) (Atom 7))];
+        [Atom 3; Node (Atom 0) (Atom 1); Node (Node (Atom 4) (Atom 5)) (Node (Atom 6) (Atom 7))]].
+Proof. split; vm_compute; reflexivity. Qed.
+
 (* which variant the oracle runs as "the current /repo" *)
 Theorem C10_model_variant : CUR_CUTOFF_FIXED = true.
 Proof. exact (eq_refl true). Qed.
@@ -124,3 +135,10 @@ Theorem C10_accessors : forall (D : Type) (H : D -> D -> D) (dflt : D) (leafs : 
   forall i, mt_node D t i = if (0 <=? i) && (i <? 2 * zlen leafs) then Some (znth D dflt t i) else None.
 Proof. exact honest_accessors. Qed.
 Print Assumptions C10_accessors.
+
+(* the model variant / constants used above are the ones the translator reads from the current source
+   (coq/gen/MerkleGen.v, regenerated on every run): a source change to `leaf`, the `while` guard, the default
+   cutoff or the height limit makes this fail to compile *)
+Theorem C10_model_matches_source : CUR_CUTOFF_FIXED = GEN_CUTOFF_LOOP_GUARDS_ZERO /\ CUR_LEAF_FIXED = GEN_LEAF_CHECKED_ADD /\ GEN_DEFAULT_PARALLELIZATION_CUTOFF = 256.
+Proof. exact (conj (proj1 (proj2 model_matches_source)) (conj (proj1 model_matches_source) (proj2 (proj2 (proj2 (proj2 model_matches_source)))))). Qed.
+Print Assumptions C10_model_matches_source.
